@@ -146,15 +146,102 @@ fn build_client(n: usize, h: Handler) -> GrpcClient {
 }
 
 /// One call of the real client, identified by metadata `x-call`; four generated methods in turn.
+/// Timeout given to the calls of the timed modes (None: the default of the client).
+static CALL_TIMEOUT_MS: std::sync::atomic::AtomicU64 = std::sync::atomic::AtomicU64::new(0);
+
 async fn do_call(client: GrpcClient, c: u64) -> Result<(), String> {
     let id = c.to_string();
     let e = |e: celestia_grpc::Error| e.to_string();
-    match c % 4 {
-        0 => client.get_node_config().metadata("x-call", &id).unwrap().await.map(|_| ()).map_err(e),
-        1 => client.get_auth_params().metadata("x-call", &id).unwrap().await.map(|_| ()).map_err(e),
-        2 => client.estimate_gas_price(TxPriority::Medium).metadata("x-call", &id).unwrap().await.map(|_| ()).map_err(e),
-        _ => client.tx_status(Hash::Sha256([c as u8; 32])).metadata("x-call", &id).unwrap().await.map(|_| ()).map_err(e),
+    let t = CALL_TIMEOUT_MS.load(std::sync::atomic::Ordering::Relaxed);
+    macro_rules! go {
+        ($call:expr) => {{
+            let mut call = $call.metadata("x-call", &id).unwrap();
+            if t > 0 {
+                call = call.timeout(Duration::from_millis(t));
+            }
+            call.await.map(|_| ()).map_err(e)
+        }};
     }
+    match c % 4 {
+        0 => go!(client.get_node_config()),
+        1 => go!(client.get_auth_params()),
+        2 => go!(client.estimate_gas_price(TxPriority::Medium)),
+        _ => go!(client.tx_status(Hash::Sha256([c as u8; 32]))),
+    }
+}
+
+// ---- answers that take time (real clock: the client measures with std::time::Instant) ----
+const TIMED_TIMEOUT_MS: u64 = 30;
+
+fn lat_ms(lat: &str) -> u64 {
+    match lat {
+        "below" => 8,
+        "at" => TIMED_TIMEOUT_MS,
+        "above" => TIMED_TIMEOUT_MS + 15,
+        _ => 0,
+    }
+}
+
+type Script = Arc<Mutex<BTreeMap<u64, std::collections::VecDeque<(String, String)>>>>;
+
+/// Endpoint handler of the timed modes: the n-th attempt of a call takes the scripted latency and
+/// then gives the scripted answer.
+fn timed_handler(w: Arc<World>, script: Script, seed: u64) -> Handler {
+    Arc::new(move |ep, req: Request| {
+        let w = w.clone();
+        let script = script.clone();
+        async move {
+            let call = call_of(&req);
+            let next = script.lock().unwrap().get_mut(&call).and_then(|q| q.pop_front());
+            let (kind, lat, scripted) = match next {
+                Some((k, l)) => (k, l, true),
+                None => ("app".to_string(), "fast".to_string(), false),
+            };
+            let d = lat_ms(&lat);
+            if d > 0 {
+                tokio::time::sleep(Duration::from_millis(d)).await;
+            }
+            let a = answer(&kind, (seed ^ call ^ ((ep as u64) << 7)) as u32);
+            w.ev(json!({"name":"att","c":call,"e":ep,"r":a.kind,"variant":a.variant,"lat":lat,"scripted":scripted,"path":req.path}));
+            to_reply(&a, &req.path)
+        }
+        .boxed()
+    })
+}
+
+fn rt_real() -> tokio::runtime::Runtime {
+    tokio::runtime::Builder::new_current_thread().enable_time().build().unwrap()
+}
+
+/// Sequential calls against endpoints with scripted (kind, latency) per attempt.
+async fn run_timed(n: usize, per_call: Vec<(u64, Vec<(String, String)>)>, seed: u64) -> Vec<Value> {
+    let w = Arc::new(World::default());
+    let script: Script = Arc::new(Mutex::new(per_call.iter().map(|(c, v)| (*c, v.iter().cloned().collect())).collect()));
+    let client = build_client(n, timed_handler(w.clone(), script, seed));
+    CALL_TIMEOUT_MS.store(TIMED_TIMEOUT_MS, std::sync::atomic::Ordering::Relaxed);
+    for (c, _) in &per_call {
+        let _ = spawn_caller(&w, &client, *c).await;
+    }
+    CALL_TIMEOUT_MS.store(0, std::sync::atomic::Ordering::Relaxed);
+    let log = w.log.lock().unwrap().clone();
+    log
+}
+
+fn timed_script_of(hist: &[Value]) -> Vec<(u64, Vec<(String, String)>)> {
+    let mut out: Vec<(u64, Vec<(String, String)>)> = vec![];
+    for ev in hist {
+        let c = ev["c"].as_u64().unwrap();
+        match ev["name"].as_str().unwrap() {
+            "start" => out.push((c, vec![])),
+            "att" => {
+                if let Some(x) = out.iter_mut().find(|x| x.0 == c) {
+                    x.1.push((ev["r"].as_str().unwrap().to_string(), ev["lat"].as_str().unwrap_or("fast").to_string()));
+                }
+            }
+            _ => {}
+        }
+    }
+    out
 }
 
 fn spawn_caller(w: &Arc<World>, client: &GrpcClient, c: u64) -> tokio::task::JoinHandle<()> {
@@ -243,15 +330,23 @@ pub fn replay(args: &Args) {
     let mut dw = TraceWriter::create(dev);
     let mut rng = StdRng::seed_from_u64(args.opt_u64("seed", 1));
     let rt = rt_paused();
+    let rt_timed = rt_real();
     let mut deviating = 0u64;
     for (i, case) in cases.iter().enumerate() {
         let n = case["n"].as_u64().unwrap() as usize;
         let hist = case["hist"].as_array().unwrap();
-        let (log, notes) = rt.block_on(replay_one(n, hist, &mut rng));
+        let timed = case["timed"].as_bool().unwrap_or(false);
+        let (log, notes) = if timed {
+            let seed: u64 = rng.r#gen();
+            (rt_timed.block_on(run_timed(n, timed_script_of(hist), seed)), vec![])
+        } else {
+            rt.block_on(replay_one(n, hist, &mut rng))
+        };
         let obs: Vec<Value> = log.iter().map(slim).collect();
         let exp: Vec<Value> = hist.iter().map(slim).collect();
         let atts = hist.iter().filter(|e| e["name"] == "att").count();
-        let nontrivial = atts >= 3;
+        let slow = hist.iter().any(|e| matches!(e["lat"].as_str(), Some("at") | Some("above")));
+        let nontrivial = atts >= 3 || (timed && slow && atts >= 2);
         sum.case(PROP, nontrivial.then(|| format!("{n}:{}", serde_json::to_string(&exp).unwrap())), || {
             json!({"direction":"spec->impl","n":n,"expected":exp,"observed":obs})
         });
@@ -261,7 +356,7 @@ pub fn replay(args: &Args) {
         }
         if obs != exp {
             deviating += 1;
-            dw.emit(json!({"name":"reset","n":n,"case":i,"expected":exp,"notes":notes}));
+            dw.emit(json!({"name":"reset","n":n,"case":i,"timed":timed,"expected":hist,"notes":notes}));
             for e in &log {
                 dw.emit(e.clone());
             }
@@ -367,7 +462,9 @@ pub fn record(args: &Args) {
     let mut sum = Summary::new("failover");
     let mut tw = TraceWriter::create(out);
     let mut rng = StdRng::seed_from_u64(seed ^ if mode == "free" { 0x5eed } else { 0 });
-    let rt = if mode == "free" {
+    let rt = if mode == "timed" {
+        rt_real()
+    } else if mode == "free" {
         tokio::runtime::Builder::new_multi_thread().worker_threads(4).enable_time().build().unwrap()
     } else {
         rt_paused()
@@ -375,9 +472,26 @@ pub fn record(args: &Args) {
     let mut hist_n = [0u64; 6];
     for run in 0..runs {
         let n = rng.gen_range(1..=5usize);
+        let n = if mode == "timed" { n.max(2) } else { n };
         hist_n[n] += 1;
         let conc = rng.gen_range(1..=4usize);
-        let log = if mode == "free" {
+        let log = if mode == "timed" {
+            // sequential calls, every attempt with a random kind and a random latency class
+            let per_call: Vec<(u64, Vec<(String, String)>)> = (1..=calls)
+                .map(|c| {
+                    let v = (0..n)
+                        .map(|_| {
+                            let roll: f64 = rng.r#gen();
+                            let kind = if roll < 0.55 { "net" } else if roll < 0.85 { "ok" } else { "app" };
+                            let lat = ["fast", "below", "at", "above"][rng.gen_range(0..4)];
+                            (kind.to_string(), lat.to_string())
+                        })
+                        .collect();
+                    (c, v)
+                })
+                .collect();
+            rt.block_on(run_timed(n, per_call, seed.wrapping_add(run)))
+        } else if mode == "free" {
             rt.block_on(record_free(n, calls, seed.wrapping_mul(1_000_003).wrapping_add(run), &mut rng))
         } else {
             rt.block_on(record_gated(n, calls, conc, &mut rng))
